@@ -934,6 +934,20 @@ func worldCheck(w *simWorld, phase int) {
 					w.violate("C02", "adj-in-extra", fmt.Sprintf("p%d %s", p.cfg.Idx, k), fmt.Sprintf("Adj-RIB-In holds %x which was withdrawn or never announced on this session", got[k]))
 				}
 			}
+			// table summary of the Adj-RIB-In: destinations, paths, accepted
+			if ti, err := w.s.GetTable(context.Background(), &api.GetTableRequest{TableType: api.TableType_TABLE_TYPE_ADJ_IN, Name: p.cfg.Addr,
+				Family: &api.Family{Afi: api.Family_Afi(fam.AFI), Safi: api.Family_Safi(fam.SAFI)}}); err == nil {
+				dests := map[string]bool{}
+				for k := range sent {
+					if k.Fam == fam {
+						dests[k.Key] = true
+					}
+				}
+				if int(ti.NumPath) != len(want) || int(ti.NumDestination) != len(dests) {
+					w.violate("C02", "table-summary", fmt.Sprintf("p%d adj-in %s", p.cfg.Idx, fam), fmt.Sprintf("GetTable reports %d destination(s) and %d path(s), the Adj-RIB-In holds %d destination(s) and %d path(s)", ti.NumDestination, ti.NumPath, len(dests), len(want)))
+				}
+				w.probe("table_summary_compared")
+			}
 			// counters
 			if ps := states[p.cfg.Addr]; ps != nil {
 				for _, a := range ps.Peer.AfiSafis {
@@ -1008,6 +1022,17 @@ func worldCheck(w *simWorld, phase int) {
 			}
 		}
 		w.mu.Unlock()
+		// table summary of the global table against what ListPath shows at the same quiescent point
+		if ti, err := w.s.GetTable(context.Background(), &api.GetTableRequest{TableType: api.TableType_TABLE_TYPE_GLOBAL,
+			Family: &api.Family{Afi: api.Family_Afi(fam.AFI), Safi: api.Family_Safi(fam.SAFI)}}); err == nil {
+			np := 0
+			for _, l := range glob {
+				np += len(l)
+			}
+			if int(ti.NumDestination) != len(glob) || int(ti.NumPath) != np {
+				w.violate("C02", "table-summary", fmt.Sprintf("global %s", fam), fmt.Sprintf("GetTable reports %d destination(s) and %d path(s), ListPath shows %d destination(s) and %d path(s)", ti.NumDestination, ti.NumPath, len(glob), np))
+			}
+		}
 		if bs := w.bestS; bs != nil {
 			// ---- C02: the best-path notification stream, replayed in order, gives the best-path table
 			bs.mu.Lock()
